@@ -88,13 +88,18 @@ def _ztab(entries):
 	return L([P(X(k), 'None' if v is None else '(Some %s)' % P(X(v[0]), X(v[1]))) for k, v in entries], '(bytes * option (bytes * bytes))')
 
 
-def _tables(coding, d):
-	"""the three decoder tables for the question(s) asked about d"""
+def _tables(coding, d, name=None):
+	"""the three decoder tables for the question(s) asked about d (name: Coq variable bound to d, to share the literal)"""
+	def key(k):
+		return name if (name is not None and k == d) else X(k)
+
+	def tab(entries):
+		return L([P(key(k), 'None' if v is None else '(Some %s)' % P(X(v[0]), X(v[1]))) for k, v in entries], '(bytes * option (bytes * bytes))')
 	if coding == GZ:
 		r = _gunzip(d)
-		return _ztab([(d, None if r is None else (r, b''))]), _ztab([]), _ztab([])
+		return tab([(d, None if r is None else (r, b''))]), tab([]), tab([])
 	r = _zd1(d)
-	return _ztab([]), _ztab([(d, None if r is None else (r, b''))]), _ztab(_zsteps(d))
+	return tab([]), tab([(d, None if r is None else (r, b''))]), tab(_zsteps(d))
 
 
 def _dechunk(body):
@@ -322,6 +327,20 @@ def _http_msg(rng):
 
 
 def gen_cases(rng, tier):
+	cases = _gen_cases(rng, tier)
+	# large literals must not share a correspondence shard (Coq's stack): spread them between the small cases
+	bigs = [c for c in cases if len(c.get('d', '')) > 6000]
+	small = [c for c in cases if len(c.get('d', '')) <= 6000]
+	step = max(1, len(small) // (len(bigs) + 1))
+	out = []
+	for i, c in enumerate(small):
+		if i % step == 0 and bigs and i:
+			out.append(bigs.pop())
+		out.append(c)
+	return out + bigs
+
+
+def _gen_cases(rng, tier):
 	big = tier == 'thorough'
 	cases = []
 	# --- Body pieces
@@ -818,8 +837,10 @@ def _is_escape(o):
 
 
 def coq_case(c, o):
+	if len(c.get('d', '')) > 18000:
+		return None    # a single list literal of more than ~30k elements overflows Coq's stack: oracle-only
 	t = _coq_case(c, o)
-	if isinstance(t, str) and len(t) > 90000:
+	if isinstance(t, str) and len(t) > 70000:
 		return None    # literal too large for one vm_compute (stack): the case stays oracle-only
 	return t
 
@@ -839,7 +860,7 @@ def _coq_case(c, o):
 		if r is None:
 			return 'CBoundary [] true'
 		d = bytes.fromhex(c['d'])
-		return 'CCodecDec %s %s %s %s %s %s' % ((_coding(c['c']), X(d)) + _tables(c['c'], d) + (r,))
+		return '(let d := %s in CCodecDec %s d %s %s %s %s)' % ((X(d), _coding(c['c'])) + _tables(c['c'], d, 'd') + (r,))
 	if k == 'body_dec':
 		if c['cs'] not in CHARSETS:
 			return None
@@ -847,7 +868,7 @@ def _coq_case(c, o):
 		if r is None:
 			return 'CBoundary [] true'
 		d = bytes.fromhex(c['d'])
-		return 'CBodyDec %s %s %s %s %s %s %s' % ((_coding(c['c']), CHARSETS[c['cs']], X(d)) + _tables(c['c'], d) + (r,))
+		return '(let d := %s in CBodyDec %s %s d %s %s %s %s)' % ((X(d), _coding(c['c']), CHARSETS[c['cs']]) + _tables(c['c'], d, 'd') + (r,))
 	if k == 'wire':
 		if c['cs'] not in CHARSETS:
 			return None
@@ -856,7 +877,7 @@ def _coq_case(c, o):
 			return 'CBoundary [] true'
 		payload = bytes.fromhex(o['payload'])
 		tc = L([P(X(bytes.fromhex(raw)), X(bytes.fromhex(coded))) for coded, raw in o['streams']], '(bytes * bytes)')
-		return 'CWire %s %s %s %s %s %s %s %s %s' % ((_coding(c['c']), CHARSETS[c['cs']], X(bytes.fromhex(c['d'])), tc, X(payload)) + _tables(c['c'], payload) + (r,))
+		return '(let p := %s in CWire %s %s %s %s p %s %s %s %s)' % ((X(payload), _coding(c['c']), CHARSETS[c['cs']], X(bytes.fromhex(c['d'])), tc) + _tables(c['c'], payload, 'p') + (r,))
 	if k in ('plain_dec', 'json_dec'):
 		cs = c['cs'] or ('UTF-8' if k == 'plain_dec' else 'ascii')
 		if _is_escape(o):
